@@ -21,7 +21,7 @@ EXPLANATION = (
     'same bit layout (to-file 0-2, to-row 3-5, from-file 6-8, from-row 9-11, promotion 12-14) and inverse castling conversions for '
     'all four castling moves; Book::pieceToProm / promToPiece are inverse (constant evaluation over all codes); (3) a failed file read '
     'zero-fills the entry before deSerialize uses it, the binary search keeps lo = -1 / hi = numEntries as exclusive bounds so only '
-    'indices 0..n-1 are read, and the scan loop is bounded by numEntries.')
+    'indices 0..n-1 are read, and the scan loop is bounded by numEntries; (4) the weight accumulator of getBookMove is wide enough for (widest stored weight) x (largest entry count of a file) and the random pick is defined for every total (found and fixed defect D12: Random::nextInt never returns for a modulus above 2^30).')
 UNDECIDED = 'that a corrupt file never produces a legal but wrong move; selection probabilities.'
 ASSUMPTIONS = ['MoveGen::pseudoLegalMoves + removeIllegal produce exactly the legal moves (property C01)']
 
@@ -36,6 +36,7 @@ def run(fb, rep, tier):
     c1_validate(fb, rep)
     c2_tables(fb, rep)
     c3_files(fb, rep)
+    c4_weight_sum(fb, rep)
 
 
 def c1_validate(fb, rep):
@@ -332,3 +333,72 @@ def c3_files(fb, rep):
                 same_side = fl if ce.get('op') == '!=' else t
                 ok = ok or same_side == b or same_side in f.dominators().get(b, set())
             rep.ob(clause, 'K4 guard', 'only entries stored under the position\'s key are offered as book moves', ok, R.site(f, e), '', f.sname)
+
+
+# ----------------------------------------------------------------------------- .4
+
+_BITS = {'bool': 1, 'char': 7, 'signed char': 7, 'unsigned char': 8, 'short': 15, 'unsigned short': 16, 'int': 31, 'unsigned int': 32,
+         'long': 63, 'unsigned long': 64, 'long long': 63, 'unsigned long long': 64}
+
+
+_TYPEDEFS = {'S64': 'long', 'U64': 'unsigned long', 'S32': 'int', 'U32': 'unsigned int', 'S16': 'short', 'U16': 'unsigned short', 'S8': 'signed char', 'U8': 'unsigned char',
+             'int64_t': 'long', 'uint64_t': 'unsigned long', 'size_t': 'unsigned long'}
+
+
+def _value_bits(ct):
+    ct = (ct or '').replace('const ', '').replace('&', '').strip()
+    return _BITS.get(_TYPEDEFS.get(ct, ct))
+
+
+def c4_weight_sum(fb, rep):
+    """K11/K12: the total weight of the entries of one position is the modulus of the random pick.  A file may hold
+    any number of entries under one key (the scan is bounded only by the entry count of the file), so the accumulator
+    must hold (largest weight) x (largest entry count), and the pick must be defined for every such total:
+    Random::nextInt(m) draws below 2^30 and rejects above (2^30 / m) * m - for m > 2^30 that bound is 0 and it never
+    returns (defect D12)."""
+    clause = 'C18.4'
+    f = fb.find1('Book::getBookMove')
+    ge = fb.find1('Book::getBookEntries')
+    ds = fb.find1('PolyglotBook::deSerialize')
+    if rep.need(clause, f, 'Book::getBookMove') is None or rep.need(clause, ge, 'Book::getBookEntries') is None or rep.need(clause, ds, 'PolyglotBook::deSerialize') is None:
+        return
+    sum_vars = {}
+    for _, _, e in f.events():
+        if e.get('k') == 'asg' and e.get('op') == '+=' and isinstance(e.get('l'), dict) and e['l'].get('k') == 'var' and \
+                any(n.get('k') == 'call' and cname(n) == 'Book::getWeight' for n in walk(e.get('r') or {})):
+            sum_vars[e['l']['id']] = e['l']
+    if rep.need(clause, sum_vars, 'the weight accumulator of getBookMove') is None:
+        return
+    # widest stored weight: the type deSerialize hands the weight out in (its last parameter)
+    wpar = (ds.d.get('params') or [{}])[-1]
+    wbits = _value_bits(wpar.get('ct') or wpar.get('t'))
+    # entry count: the type of the bound of the matching-entries scan
+    cbits = None
+    for bid, blk in ge.blocks.items():
+        t = blk.get('term') or {}
+        c = _strip(t.get('cond'))
+        if t.get('c') == 'ForStmt' and isinstance(c, dict) and c.get('k') == 'bin' and c.get('op') == '<':
+            r = _strip(c.get('r'))
+            if isinstance(r, dict) and r.get('k') == 'var':
+                cb = _value_bits(r.get('t'))
+                cbits = cb if cbits is None else max(cbits, cb or 0)
+    for vid, v in sorted(sum_vars.items()):
+        have = _value_bits(v.get('t'))
+        need = (wbits or 0) + (cbits or 0)
+        rep.ob(clause, 'K11 width agreement', 'getBookMove: the weight accumulator holds (largest stored weight) x (largest entry count of a file)',
+               have is not None and wbits is not None and cbits is not None and have >= need, f.where,
+               'accumulator %s: %s value bits; weight %s bits x entry count %s bits' % (v.get('t'), have, wbits, cbits), f.sname)
+    # the pick is defined for every total
+    picks = []
+    for b, i, e in f.events():
+        for n in walk(e):
+            if n.get('k') == 'call' and n.get('repo') and cname(n).startswith('Random::') and any(x.get('k') == 'var' and x.get('id') in sum_vars for a in n.get('args', []) for x in walk(a)):
+                picks.append((b, i, e, cname(n)))
+            if n.get('k') == 'bin' and n.get('op') == '%' and any(x.get('k') == 'var' and x.get('id') in sum_vars for x in walk(n.get('r'))):
+                picks.append((b, i, e, '%'))
+    rep.floor(clause, 'random picks over the total weight', len(picks), 1)
+    for b, i, e, how in picks:
+        ok = how == '%'
+        detail = 'remainder of a 64-bit random number: defined for every non-zero total' if ok else \
+            '%s is only defined for a modulus <= 2^30 and the total is not bounded (any number of entries per position)' % how
+        rep.ob(clause, 'K12 domain of the random pick', 'getBookMove: the random pick is defined for every total weight the file can produce', ok, R.site(f, e), detail, f.sname)
